@@ -1,11 +1,111 @@
-(** C14 - Naming code does not change it.  Property theorems only; every proof is [exact lemma]. *)
+(** C14 - Naming code does not change it: bindings, macros and modules are transparent.
+    Property theorems only; every proof is [exact lemma].
+    All theorems are about the interpreter model Exec.v (fuelled transcription of Uiua::exec_impl,
+    tied to the interpreter by the C correspondence of C02), for EVERY semantics of the primitives. *)
 From Coq Require Import List ZArith NArith Bool.
-From UV Require Import Model.Node Model.Sig Model.Exec Model.TreeOk Model.Calls Proofs.CallsEq.
+From UV Require Import Model.Node Model.Sig Model.Exec Model.TreeOk Model.Calls
+  Proofs.SimBase Proofs.SigMono Proofs.SigSound Proofs.Frame Proofs.TreeOk Proofs.CallsEq Proofs.Calls.
 Import ListNotations.
 
-(** Two programs with the same IR are the same program: spans and names are not part of the IR
-    the interpreter executes, so structural equality is equality. *)
+(** Two programs with the same IR are the same program (names and spans are not in the IR). *)
 Theorem C14_node_eqb_sound : forall a b, node_eqb a b = true -> a = b.
 Proof. exact node_eqb_sound. Qed.
 
+(** A call is its body.  Where no fill frame is visible ([novis]: the innermost fill boundary is the
+    top of the fill stack), calling a checked function whose arguments are on the stack and running
+    its body in place agree on success/failure and on the whole final state (stack, under stack,
+    fill stack, boundaries, call depth).  Error traces are not in the model state. *)
+Theorem C14_call_is_body :
+  forall pknown psem arrsem unpacksem fmtsem asm,
+  asm_okb asm = true -> forall f sg body, nth_error asm f = Some body ->
+  tree_okb asm body = true -> stored_okb sg body = true ->
+  forall fuel s, novis s -> sa sg <= length (stk s) -> sua sg <= length (und s) ->
+  match Exec.exec pknown psem arrsem unpacksem fmtsem asm fuel body s with
+  | Ok a => Exec.exec pknown psem arrsem unpacksem fmtsem asm (S fuel) (Call f sg) s = Ok a
+  | Err c a => Exec.exec pknown psem arrsem unpacksem fmtsem asm (S fuel) (Call f sg) s = Err c a
+  | _ => True end.
+Proof.
+  exact (fun pk ps ar un fm asm HA f sg body Hf Tb Ob =>
+    call_is_body pk ps ar un fm asm (asm_okb_sound asm HA) f sg body Hf
+      (tree_okb_sound asm body Tb) (stored_okb_sound sg body Ob)).
+Qed.
+
+(** The documented exception, stated positively: whatever fill the caller has, the body of a call
+    sees none ([fillctx] = None in the state the body starts in), the call is exactly the framed
+    run of the body in that state, and afterwards the caller's fill stack, fill boundaries and
+    call depth are restored - on success and on failure. *)
+Theorem C14_call_hides_fill :
+  forall pknown psem arrsem unpacksem fmtsem asm fuel f sg s,
+  fillctx (enter_call s) = None /\
+  (forall body, nth_error asm f = Some body ->
+     Exec.exec pknown psem arrsem unpacksem fmtsem asm (S fuel) (Call f sg) s =
+     framed leave_call (height_ok sg s)
+       (Exec.exec pknown psem arrsem unpacksem fmtsem asm fuel body (enter_call s))) /\
+  match Exec.exec pknown psem arrsem unpacksem fmtsem asm (S fuel) (Call f sg) s with
+  | Ok a | Err _ a => fills a = fills s /\ fbs a = fbs s /\ depth a = depth s
+  | _ => True end.
+Proof. exact call_hides_fill. Qed.
+
+(** Inlining (the validator's first pass) is sound for all outcomes with the same fuel: replacing
+    every call that is not under a fill operand, to any nesting depth, by a plain frame
+    (exec_with_span: frame and height check, no fill boundary) around its inlined body - in the
+    program and in the function table - changes no result, for all states without a visible fill. *)
+Theorem C14_inline_checked_sound :
+  forall pknown psem arrsem unpacksem fmtsem asm K k fuel n s, novis s ->
+  match Exec.exec pknown psem arrsem unpacksem fmtsem asm fuel n s with
+  | Ok a => Exec.exec pknown psem arrsem unpacksem fmtsem (map (inlc asm K false) asm) fuel (inlc asm k false n) s = Ok a
+  | Err c a => Exec.exec pknown psem arrsem unpacksem fmtsem (map (inlc asm K false) asm) fuel (inlc asm k false n) s = Err c a
+  | _ => True end.
+Proof. exact inline_checked_sound. Qed.
+
+(** Rebinding never alters code compiled before it: a `Call` holds the index of the function it
+    was compiled against, and functions appended to the table later change no run of older code. *)
+Theorem C14_rebinding_stable :
+  forall pknown psem arrsem unpacksem fmtsem asm more fuel n s,
+  match Exec.exec pknown psem arrsem unpacksem fmtsem asm fuel n s with
+  | Ok a => Exec.exec pknown psem arrsem unpacksem fmtsem (asm ++ more) fuel n s = Ok a
+  | Err c a => Exec.exec pknown psem arrsem unpacksem fmtsem (asm ++ more) fuel n s = Err c a
+  | _ => True end.
+Proof. exact rebinding_stable. Qed.
+
+(** Every node restores the fill stack, the fill boundaries and the call depth (no premise). *)
+Theorem C14_exec_restores_hidden :
+  forall pknown psem arrsem unpacksem fmtsem asm fuel n s,
+  match Exec.exec pknown psem arrsem unpacksem fmtsem asm fuel n s with
+  | Ok a | Err _ a => fills a = fills s /\ fbs a = fbs s /\ depth a = depth s
+  | _ => True end.
+Proof. exact exec_hid. Qed.
+
+(** More fuel never changes a result (the statements above are not artefacts of the fuel). *)
+Theorem C14_fuel_mono :
+  forall pknown psem arrsem unpacksem fmtsem asm fuel fuel' n s, fuel <= fuel' ->
+  match Exec.exec pknown psem arrsem unpacksem fmtsem asm fuel n s with
+  | Ok a => Exec.exec pknown psem arrsem unpacksem fmtsem asm fuel' n s = Ok a
+  | Err c a => Exec.exec pknown psem arrsem unpacksem fmtsem asm fuel' n s = Err c a
+  | _ => True end.
+Proof. exact fuel_mono. Qed.
+
+(** non-vacuity: real exported programs.  `F ← +1 ⋄ F 5` and `(+1) 5` are equivalent modulo naming;
+    the premises of call_is_body hold for F and the model runs both to 6; under a fill the call is
+    kept (⬚5(F ..) is not equivalent to ⬚5((..) ..)); rebinding `F ← +1 ⋄ G ← F ⋄ F ← ×2 ⋄ G 5` is 6. *)
+Example C14_nonvacuous :
+  let asm := [Run [Push (SInt 1); Prim 5 2 1]] in
+  let P := (asm, Run [Push (SInt 5); Call 0 (Sig 1 1 0 0)]) in
+  let P' := (@nil node, Run [Push (SInt 5); Push (SInt 1); Prim 5 2 1]) in
+  equiv_mod_naming P P' = true /\
+  asm_okb asm = true /\ tree_okb asm (Run [Push (SInt 1); Prim 5 2 1]) = true /\
+  stored_okb (Sig 1 1 0 0) (Run [Push (SInt 1); Prim 5 2 1]) = true /\
+  zrun 20 (fst P) (snd P) = (0%N, [6%Z], 0%N) /\ zrun 20 (fst P') (snd P') = (0%N, [6%Z], 0%N) /\
+  equiv_mod_naming
+    (asm, Mod MFill [(Sig 0 1 0 0, Push (SInt 5)); (Sig 0 1 0 0, Run [Push (SInt 3); Call 0 (Sig 1 1 0 0)])])
+    ([], Mod MFill [(Sig 0 1 0 0, Push (SInt 5)); (Sig 0 1 0 0, Run [Push (SInt 3); Push (SInt 1); Prim 5 2 1])]) = false /\
+  zrun 20 (asm ++ [Run [Push (SInt 2); Prim 7 2 1]]) (Run [Push (SInt 5); Call 0 (Sig 1 1 0 0)]) = (0%N, [6%Z], 0%N).
+Proof. vm_compute. repeat split; reflexivity. Qed.
+
 Print Assumptions C14_node_eqb_sound.
+Print Assumptions C14_call_is_body.
+Print Assumptions C14_call_hides_fill.
+Print Assumptions C14_inline_checked_sound.
+Print Assumptions C14_rebinding_stable.
+Print Assumptions C14_exec_restores_hidden.
+Print Assumptions C14_fuel_mono.
